@@ -4,6 +4,7 @@ import PvModel.Props.C02Decide
 import PvModel.Props.C02Rel
 import PvModel.Props.C02Answer
 import PvModel.Props.C02Query
+import PvModel.Props.C02QueryRel
 #print axioms Pv.C02_invariant_ok
 #print axioms Pv.C02_invariant_fail
 #print axioms Pv.C02_step_ok
@@ -29,3 +30,4 @@ import PvModel.Props.C02Query
 #print axioms Pv.C02_query_exact
 #print axioms Pv.C02_querySideOK_spec
 #print axioms Pv.C02_query_exact_checked
+#print axioms Pv.C02_query_rel
